@@ -7,10 +7,63 @@ ASPECTS = {'valid', 'values', 'members'}
 JOB_ASPECTS = {'visits'}
 
 
+def shared_arg_scripts(rng, n):
+    """typed job 4 takes a shared component by reference: `the shared values of its archetype` (not in the Manager model:
+    judged on the implementation's own output only)"""
+    out = []
+    for i in range(n):
+        r = rng.fork('sh%d' % i)
+        lines = ['maxthreads %d' % mgr.MAXTHREADS, 'threads %d' % r.pick([1, 2, 3]), 'chunkcap %d' % r.pick([0, 2, 3, 5]), 'reg 0', 'reg 1', 'update']
+        cnt = r.range(1, 14)
+        for k in range(cnt):
+            lines.append('create 0 0' + (' 1' if r.chance(1, 3) else ''))
+            lines.append('set #%d 0 %d' % (k, 100 + k))
+        for k in range(cnt):
+            if r.chance(4, 5):
+                lines.append('assignshared #%d 0 %d' % (k, r.pick([7, 7, 7, 8, 9])))
+        alive = list(range(cnt))
+        for _ in range(r.range(1, 4)):
+            c = r.below(4)
+            if c == 0 and alive:
+                k = r.pick(alive); alive.remove(k)
+                lines.append('destroynow 0 #%d' % k)
+            elif c == 1 and alive:
+                lines.append('assignshared #%d 0 %d' % (r.pick(alive), r.pick([7, 8, 9, 10])))     # unchecked entry point: live targets only
+            elif c == 2 and alive:
+                lines.append('removeshared #%d 0' % r.pick(alive))
+            mode = r.below(2)
+            lines.append('runtyped 4 %d%s' % (mode, (' %d' % r.range(1, 5)) if mode and r.chance(1, 2) else ''))
+        out.append(('sh%d' % i, lines))
+    return out
+
+
+def shared_arg_run(scripts):
+    import os, emcmp
+    drv, err = vlib.build_driver('em_driver')
+    if err:
+        return [dict(script=scripts[0][0], opn=0, op='build', aspect='build', what=str(err))]
+    io, _ = emcmp.run_driver(drv, emcmp.scripts_text(scripts), os.path.join(vlib.BUILD, 'work', PROP + '-sh'), timeout=1200)
+    impl = emcmp.parse(io)
+    fails = [dict(script=n_, opn=i, op=b['op'], aspect='crash', what='implementation crashed: ' + b['crash']) for n_, bl in impl for i, b in enumerate(bl) if b['crash']]
+    return fails + jobcheck.tier_a_jobs(impl, scripts, JOB_ASPECTS)
+
+
 def run(tier, seed, replay=None):
     rng = vlib.Rng(seed)
+    rl = [l.rstrip('\n') for l in open(replay) if l.strip() and not l.startswith('#')] if replay else []
+    only_sh = any(l.startswith('runtyped 4') for l in rl)
+    sh_scripts = [('replay', rl)] if only_sh else ([] if replay else shared_arg_scripts(rng, 60 if tier == 'quick' else 1500))
+    fa = shared_arg_run(sh_scripts) if sh_scripts else []
+    if fa or only_sh:
+        cov = {'rule': 'typed job with a shared-component argument, implementation only', 'evaluations': len(sh_scripts), 'distinct_nontrivial': len(sh_scripts)}
+        if not fa:
+            return {'violations': [], 'coverage': cov, 'level': 'proof'}
+        f = fa[0]
+        p = vlib.write_replay(PROP, 'failing_script.txt', '# %s: %s\n# at op %d (%s) of script %s\n%s\n' % (f['aspect'], f['what'], f['opn'], f['op'], f['script'], '\n'.join(dict(sh_scripts)[f['script']])))
+        return {'violations': [(p, '')], 'coverage': cov, 'level': 'proof'}
     n, maxops = (200, 70) if tier == 'quick' else (3000, 250)
     prof = mgr.profile(PROP)
     scripts = mgr.corpus(PROP) + [('g%d' % i, mgr.gen_script(rng.fork(PROP + '-%d' % i), maxops, prof)) for i in range(n)]
     return mgrcheck.run_check(PROP, scripts, ASPECTS, replay=replay, assumptions=['component payloads are modelled as one integer per instance', 'user callbacks only read what they are handed', 'extraArchetypeFilterCheck / extraChunkFilterCheck are the defaults'],
-                              extra_tier_a=lambda impl, sc: jobcheck.tier_a_jobs(impl, sc, JOB_ASPECTS))
+                              extra_tier_a=lambda impl, sc: jobcheck.tier_a_jobs(impl, sc, JOB_ASPECTS),
+                              extra_cov={'shared_argument_jobs': {'scripts': len(sh_scripts), 'judged': 'implementation output only (the Manager model has no shared arguments of jobs)'}})
